@@ -601,6 +601,36 @@ def rule_getb(ctx: Ctx) -> List[Ob]:
         ok = all(len(s.value.args) == 1 and src(s.value.args[0]) == bp for s in conv)
         obs.append(ob("GETB", "bounds are converted by SciPy's old_bound_to_new applied to the caller's pairs", f, conv[0], ok,
                       f"{short(conv[0])}", construct="lb, ub = old_bound_to_new(bounds)"))
+        # ... and what is returned is that conversion, untouched: no later rebinding (other than a dtype / array
+        # conversion of the same name) and no in-place write of the two vectors
+        tg = conv[0].targets[0]
+        names = [e.id for e in tg.elts] if isinstance(tg, ast.Tuple) and all(isinstance(e, ast.Name) for e in tg.elts) else []
+        touched = []
+        IDENT = ("np.asarray", "np.array", "np.atleast_1d", "np.ascontiguousarray", "np.broadcast_to", "np.copy")
+        for st in walk_no_nested(f.node):
+            if st is conv[0]:
+                continue
+            if isinstance(st, (ast.Assign, ast.AugAssign, ast.AnnAssign)):
+                for t in (st.targets if isinstance(st, ast.Assign) else [st.target]):
+                    base = t
+                    while isinstance(base, (ast.Subscript, ast.Attribute)):
+                        base = base.value
+                    for nm in ([base.id] if isinstance(base, ast.Name) else []) + [x.id for x in (t.elts if isinstance(t, ast.Tuple) else []) if isinstance(x, ast.Name)]:
+                        if nm in names:
+                            v = getattr(st, "value", None)
+                            same = isinstance(st, ast.Assign) and t is base and v is not None and (
+                                (isinstance(v, ast.Call) and dotted(v.func) in IDENT and v.args and src(v.args[0]) == nm) or
+                                (isinstance(v, ast.Call) and isinstance(v.func, ast.Attribute) and v.func.attr in ("astype", "copy") and src(v.func.value) == nm))
+                            if not same:
+                                touched.append((st, nm))
+            if isinstance(st, ast.Call) and (kw(st, "out") is not None and src(kw(st, "out")) in names):
+                touched.append((st, src(kw(st, "out"))))
+        retnames = [src(e) for e in rets[-1].value.elts] if isinstance(rets[-1].value, ast.Tuple) else [src(rets[-1].value)]
+        okr = not touched and bool(names) and retnames == names
+        obs.append(ob("GETB", "the converted vectors are returned as they are (a finite side is never changed)", f,
+                      touched[0][0] if touched else rets[-1], okr,
+                      (f"`{short(touched[0][0], 70)}` rewrites {touched[0][1]} after the conversion: some finite bounds are no longer the caller's" if touched
+                       else f"returns {retnames}; conversion targets {names}"), construct="return lb, ub of old_bound_to_new"))
         return obs
     # explicit conversion: look at every infinity literal and every truth-value test on a bound value
     bad, good = [], 0
